@@ -338,6 +338,18 @@ class HList:
         return HList(self.items)
 
 
+class HGen:
+    """Generator object (a generator expression that is not consumed on the spot): ONE-SHOT - the first iteration takes the
+    items, every later one finds it exhausted.  (Its elements are computed when it is created; element expressions that may
+    raise are outside the subset, see Engine.ex_GeneratorExp.)"""
+
+    def __init__(self, items):
+        self.items = list(items)
+
+    def copy(self):
+        return HGen(self.items)
+
+
 class HDict:
     """dict created at run time with concrete keys."""
 
